@@ -120,6 +120,8 @@ where
     let mut runner = TestRunner::new_with_rng(Config { failure_persistence: None, ..Config::default() }, TestRng::from_seed(RngAlgorithm::ChaCha, &seed_bytes(seed, widx, part)));
     let mut res = WorkerResult::default();
     let mut seen: HashSet<u64> = HashSet::new();
+    let findings = load_findings();
+    let mut known_sample_written: HashSet<String> = HashSet::new();
     let logp = format!("{}/w{}.last", outdir, widx);
     let run = |c: &C| -> Result<(bool, Value), String> {
         match std::panic::catch_unwind(std::panic::AssertUnwindSafe(|| test(c))) {
@@ -157,6 +159,19 @@ where
                 }
             }
             Err(msg) => {
+                // an open known finding: counted, excluded, the search goes on
+                if let Some(k) = findings.iter().find(|k| k.status == "open" && !k.contains.is_empty() && msg.contains(&k.contains)) {
+                    *res.known.entry(k.id.clone()).or_insert(0) += 1;
+                    res.known_what.insert(k.id.clone(), format!("property={} {}", prop, k.what));
+                    if !known_sample_written.contains(&k.id) {
+                        known_sample_written.insert(k.id.clone());
+                        let rp = Replay2 { property: prop.into(), oracle: "E2".into(), msg: msg.clone(), engine: part.into(), tree_rev: tree_rev(), case: cj.clone() };
+                        let dir = format!("{}/work/replays", verif_dir());
+                        let _ = std::fs::create_dir_all(&dir);
+                        let _ = std::fs::write(format!("{}/{}-known-{}-w{}.json", dir, part, k.id, widx), serde_json::to_string_pretty(&rp).unwrap());
+                    }
+                    continue;
+                }
                 let mut best = (case.clone(), msg);
                 let mut steps = 0;
                 if tree.simplify() {
@@ -1013,7 +1028,7 @@ pub fn parent(id: &str, tier: &str) -> i32 {
         if code == 1 || code >= 128 || code < 0 {
             let known = findings.iter().find(|k| k.status == "open" && !k.contains.is_empty() && out.contains(&k.contains));
             if let Some(k) = known {
-                println!("KNOWN-FINDING: property={} {}", k.property, k.what);
+                println!("KNOWN-FINDING: property={} {} (signature {}, replay {})", id, k.what, k.id, p.display());
                 continue;
             }
             print!("{}", out);
@@ -1025,6 +1040,11 @@ pub fn parent(id: &str, tier: &str) -> i32 {
         } else if code != 0 {
             eprintln!("replay {} inconclusive (exit {})", p.display(), code);
             return 2;
+        } else {
+            // the replay of an open finding reports it itself
+            for l in out.lines().filter(|l| l.starts_with("KNOWN-FINDING:")) {
+                println!("{}", l);
+            }
         }
     }
     // 2. generated tiers
@@ -1172,6 +1192,10 @@ pub fn replay(path: &str) -> i32 {
             }
             Err(m) => {
                 println!("oracle {} : {}", generic.engine, m);
+                if let Some(k) = load_findings().iter().find(|k| k.status == "open" && !k.contains.is_empty() && m.contains(&k.contains)) {
+                    println!("KNOWN-FINDING: property={} {} (signature {}, replay {})", generic.property, k.what, k.id, path);
+                    return 0;
+                }
                 println!("VIOLATION property={} replay={}", generic.property, path);
                 1
             }
